@@ -327,6 +327,8 @@ def similarity_clustermap(
     if norm is None:
         norm = mpl.colors.BoundaryNorm(bounds, cmap.N)
         # plot tick in the middle of the discretized colormap
+        # (on a copy: neither the caller's dict nor the shared default may be modified)
+        cbar_kws = dict(cbar_kws)
         cbar_kws.update(dict(ticks=bounds[:-1] + 0.5))
 
     cluster_colors = pd.Series(meta_to_colors[0](cluster, min_count=2), name="Cluster")
